@@ -3,13 +3,14 @@
     Run from the directory that should receive model.ml / model.mli. *)
 From Coq Require Import ExtrOcamlBasic.
 From Coq Require Import List NArith ZArith.
-From WB Require Import Num Base Props World Kernels Features Plume.
+From WB Require Import Num Base Props World Kernels Features Plume Bezier.
 
 Extraction Language OCaml.
 Extraction "model.ml"
   fmin fmax
   decode width output_size offsets
   properties3d properties2d temperature3d composition3d grains3d temperature2d composition2d grains2d
-  cross_dir map2d cartesian_to_spherical spherical_to_cartesian
+  cross_dir map2d cartesian_to_spherical spherical_to_cartesian great_circle_distance
   approx polygon_contains polygon_contains_impl find_closest_points surface_local_value in_triangle
-  area_to_feature plume_to_feature plume_rel_distance.
+  area_to_feature plume_to_feature plume_rel_distance
+  bezier_build bezier_eval closest_point_cartesian.
